@@ -387,7 +387,7 @@ Proof.
   { intros sa' sb' a' t b' Hx. apply (sis_grows NR NS cb ca HNSb _ _ _ _ _ _ Hx). }
   assert (Rfl : forall s : sess, NS -> Grows (s_snd s) (s_msgs s) (s_snd s) (s_msgs s)) by (intros s _; apply grows_refl).
   unfold PI', lstep. cbn [l_p l_sent_a l_sent_b].
-  destruct e as [|id|id| | |t|t| | |]; cbn [pstep]; rewrite ?app_nil_r.
+  destruct e as [|id|id| | |t|t| | | | |]; cbn [pstep]; rewrite ?app_nil_r.
   - (* connect *)
     destruct (p_up p); cbn [p_a p_b p_ab p_ba].
     + split; [apply Aidle; [apply incl_refl | apply incl_refl | intros _; apply grows_refl]|].
@@ -459,6 +459,14 @@ Proof.
     assert (Hb' := sis_restart NR NS cb ca _ _ _ _ _ _ _ Hb).
     split; [|split; [exact (peer_moved NR NS cb ca _ _ _ _ _ _ _ _ Hb' Ga) | split; constructor]].
     apply (peer_moved NR NS ca cb _ _ _ (restart (p_b p)) _ _ _ _ Ha'). intros _. apply grows_refl.
+  - (* stop A *)
+    cbn [p_a p_b p_ab p_ba]. pose proof (Aact EStop I) as Ha'. pose proof (Agrow _ _ _ _ _ Ha') as Ga.
+    split; [exact Ha'|]. split; [apply Bidle; [apply incl_refl | apply incl_refl | exact Ga]|]. split; [|exact Hba].
+    destruct (p_up p); [|constructor]. apply Forall_app. split; [eapply chan_lift; [apply incl_refl | exact Ga | exact Hab] | eapply sis_wrote; exact Ha'].
+  - (* stop B *)
+    cbn [p_a p_b p_ab p_ba]. pose proof (Bact EStop I) as Hb'. pose proof (Bgrow _ _ _ _ _ Hb') as Gb.
+    split; [apply Aidle; [apply incl_refl | apply incl_refl | exact Gb]|]. split; [exact Hb'|]. split; [exact Hab|].
+    destruct (p_up p); [|constructor]. apply Forall_app. split; [eapply chan_lift; [apply incl_refl | exact Gb | exact Hba] | eapply sis_wrote; exact Hb'].
 Qed.
 
 Lemma linit_pi : PI (linit ca cb).
@@ -507,7 +515,7 @@ Lemma ei_lstep_a g e c : s_cfg (p_a (l_p g)) = c -> EI c (p_a (l_p g)) (l_sent_a
   EI c (p_a (l_p (lstep g e))) (l_sent_a (lstep g e)) (l_epoch_a (lstep g e)).
 Proof.
   intros Hc He Hs. unfold lstep. cbn [l_sent_a l_epoch_a l_p].
-  destruct e as [|id|id| | |t|t| | |]; rewrite ?app_nil_r; try (eapply ei_quiet; [exact He | exact Hs]).
+  destruct e as [|id|id| | |t|t| | | | |]; rewrite ?app_nil_r; try (eapply ei_quiet; [exact He | exact Hs]).
   cbn [pstep p_a]. apply ei_send; assumption.
 Qed.
 Lemma ei_lstep_b g e c : s_cfg (p_b (l_p g)) = c -> EI c (p_b (l_p g)) (l_sent_b g) (l_epoch_b g) ->
@@ -515,7 +523,7 @@ Lemma ei_lstep_b g e c : s_cfg (p_b (l_p g)) = c -> EI c (p_b (l_p g)) (l_sent_b
   EI c (p_b (l_p (lstep g e))) (l_sent_b (lstep g e)) (l_epoch_b (lstep g e)).
 Proof.
   intros Hc He Hs. unfold lstep. cbn [l_sent_b l_epoch_b l_p].
-  destruct e as [|id|id| | |t|t| | |]; rewrite ?app_nil_r; try (eapply ei_quiet; [exact He | exact Hs]).
+  destruct e as [|id|id| | |t|t| | | | |]; rewrite ?app_nil_r; try (eapply ei_quiet; [exact He | exact Hs]).
   cbn [pstep p_b]. apply ei_send; assumption.
 Qed.
 
@@ -523,13 +531,13 @@ Qed.
 Lemma new_entry_a g e n id : In (n, id) (l_sent_a (lstep g e)) ->
   In (n, id) (l_sent_a g) \/ (n = s_snd (p_a (l_p g)) /\ s_tgt (p_b (l_p (lstep g e))) = s_tgt (p_b (l_p g))).
 Proof.
-  unfold lstep. cbn [l_sent_a l_p]. destruct e as [|i|i| | |t|t| | |]; rewrite ?app_nil_r; try (intros H; left; exact H).
+  unfold lstep. cbn [l_sent_a l_p]. destruct e as [|i|i| | |t|t| | | | |]; rewrite ?app_nil_r; try (intros H; left; exact H).
   intros H. apply in_app_or in H as [H|[E|[]]]; [left; exact H | right]. inversion E; subst. split; reflexivity.
 Qed.
 Lemma new_entry_b g e n id : In (n, id) (l_sent_b (lstep g e)) ->
   In (n, id) (l_sent_b g) \/ (n = s_snd (p_b (l_p g)) /\ s_tgt (p_a (l_p (lstep g e))) = s_tgt (p_a (l_p g))).
 Proof.
-  unfold lstep. cbn [l_sent_b l_p]. destruct e as [|i|i| | |t|t| | |]; rewrite ?app_nil_r; try (intros H; left; exact H).
+  unfold lstep. cbn [l_sent_b l_p]. destruct e as [|i|i| | |t|t| | | | |]; rewrite ?app_nil_r; try (intros H; left; exact H).
   intros H. apply in_app_or in H as [H|[E|[]]]; [left; exact H | right]. inversion E; subst. split; reflexivity.
 Qed.
 
